@@ -532,4 +532,208 @@ theorem loadF_mono (fuel fuel' : Nat) (hle : fuel ≤ fuel') : RecLe (loadF fs l
   | step _ ih => intro p f stk d st r e; exact loadF_succ fs lim m _ p f stk d st r (ih p f stk d st r e)
 end
 
+section
+variable (fs : FS) (lim : Limits) (m : Mode)
+
+/-! ### `Files` and `FileOrder` of a result agree, and `Files` holds the files as they are on disk -/
+
+/-- every entry (visible or shadowed) is the file on disk -/
+def AllOK (c : Cache) : Prop := ∀ kv ∈ c, fs kv.1 = some kv.2 ∧ kv.2.size ≤ lim.maxSize
+
+theorem get_mem (c : Cache) (p : Path) (f : File) (h : c.get p = some f) : (p, f) ∈ c := by
+  unfold Cache.get at h
+  cases hf : c.find? (·.1 == p) with
+  | none => rw [hf] at h; simp at h
+  | some kv =>
+    rw [hf] at h
+    simp only [Option.map_some, Option.some.injEq] at h
+    have h1 := List.mem_of_find?_eq_some hf
+    have h2 := List.find?_some hf
+    simp only [beq_iff_eq] at h2
+    obtain ⟨k, v⟩ := kv
+    simp only at h h2
+    subst h; subst h2
+    exact h1
+
+theorem mem_get (c : Cache) (p : Path) (f : File) (h : (p, f) ∈ c) : (c.get p).isSome = true := by
+  unfold Cache.get
+  cases hf : c.find? (·.1 == p) with
+  | none =>
+    have := List.find?_eq_none.mp hf (p, f) h
+    simp at this
+  | some kv => rfl
+
+theorem AllOK.set {c : Cache} (h : AllOK fs lim c) {p : Path} {f : File} (h1 : fs p = some f)
+    (h2 : f.size ≤ lim.maxSize) : AllOK fs lim (c.set p f) := by
+  intro kv hkv
+  unfold Cache.set at hkv
+  simp only [List.mem_cons, List.mem_filter] at hkv
+  rcases hkv with hkv | hkv
+  · subst hkv; exact ⟨h1, h2⟩
+  · exact h kv hkv.1
+
+theorem AllOK.cons {c : Cache} (h : AllOK fs lim c) : Cons fs lim c := by
+  intro p f hp
+  exact h (p, f) (get_mem c p f hp)
+
+theorem AllOK.foldl (l : Cache) (hl : AllOK fs lim l) (c : Cache) (hc : AllOK fs lim c) :
+    AllOK fs lim (l.foldl (fun c kv => c.set kv.1 kv.2) c) := by
+  induction l generalizing c with
+  | nil => exact hc
+  | cons kv rest ih =>
+    simp only [List.foldl_cons]
+    apply ih (fun x hx => hl x (List.mem_cons_of_mem _ hx))
+    exact hc.set fs lim (hl kv List.mem_cons_self).1 (hl kv List.mem_cons_self).2
+
+theorem isSome_foldl (l : Cache) (c : Cache) (q : Path) :
+    ((l.foldl (fun c kv => c.set kv.1 kv.2) c).get q).isSome = true ↔
+      (c.get q).isSome = true ∨ ∃ f, (q, f) ∈ l := by
+  induction l generalizing c with
+  | nil => simp
+  | cons kv rest ih =>
+    simp only [List.foldl_cons, ih, get_set, List.mem_cons]
+    constructor
+    · rintro (h | ⟨f, hf⟩)
+      · by_cases e : q = kv.1
+        · exact Or.inr ⟨kv.2, Or.inl (by rw [e])⟩
+        · simp only [e, if_false] at h; exact Or.inl h
+      · exact Or.inr ⟨f, Or.inr hf⟩
+    · rintro (h | ⟨f, hf | hf⟩)
+      · by_cases e : q = kv.1
+        · left; simp [e]
+        · left; simp only [e, if_false]; exact h
+      · left
+        have : q = kv.1 := by rw [← hf]
+        simp [this]
+      · exact Or.inr ⟨f, hf⟩
+
+/-- `Files` has an entry exactly for the files of `FileOrder` -/
+def KeysEq (r : Res) : Prop := ∀ q, (r.files.get q).isSome = true ↔ q ∈ r.order
+
+def FilesInv (r : Res) : Prop := AllOK fs lim r.files ∧ KeysEq r
+
+theorem merge_inv (r : Res) (p : Path) (f : File) (sub : Res) (hr : FilesInv fs lim r)
+    (hs : FilesInv fs lim sub) (hf : fs p = some f ∧ f.size ≤ lim.maxSize) :
+    FilesInv fs lim (r.merge p f sub) := by
+  refine ⟨?_, ?_⟩
+  · exact AllOK.foldl fs lim sub.files hs.1 _ (hr.1.set fs lim hf.1 hf.2)
+  · intro q
+    simp only [Res.merge, isSome_foldl, get_set, List.mem_append, List.mem_cons]
+    constructor
+    · rintro (h | ⟨g, hg⟩)
+      · by_cases e : q = p
+        · exact Or.inr (Or.inl e)
+        · simp only [e, if_false] at h; exact Or.inl ((hr.2 q).mp h)
+      · exact Or.inr (Or.inr ((hs.2 q).mp (mem_get _ _ _ hg)))
+    · rintro (h | h | h)
+      · left
+        by_cases e : q = p
+        · simp [e]
+        · simp only [e, if_false]; exact (hr.2 q).mpr h
+      · left; simp [h]
+      · right
+        have := (hs.2 q).mpr h
+        cases hg : sub.files.get q with
+        | none => rw [hg] at this; simp at this
+        | some g => exact ⟨g, get_mem _ _ _ hg⟩
+
+def RecFiles (rec : Rec) : Prop :=
+  ∀ p f stk d st sub es st', Cons fs lim st.cache → rec p f stk d st = some (some sub, es, st') →
+    FilesInv fs lim sub
+
+theorem descend_files (rec : Rec) (hc : RecCons fs lim rec) (h : RecFiles fs lim rec) (rng : Rng)
+    (p : Path) (f : File) (stk : List Path) (depth : Nat) (a a' : Acc)
+    (hf : fs p = some f ∧ f.size ≤ lim.maxSize) (ha : Cons fs lim a.st.cache)
+    (hi : FilesInv fs lim a.res) (e : descend lim m rec rng p f stk depth a = some a') :
+    FilesInv fs lim a'.res := by
+  unfold descend at e
+  split at e
+  · simp only [Option.some.injEq] at e; subst e; exact hi
+  · split at e
+    · exact absurd e (by simp)
+    · simp only [Option.some.injEq] at e; subst e; exact hi
+    · rename_i sub es st' er
+      simp only [Option.some.injEq] at e; subst e
+      have hp := (hc _ _ _ _ _ _ _ _ ha er).2 sub rfl
+      rw [hp]
+      exact merge_inv fs lim a.res p f sub hi (h _ _ _ _ _ _ _ _ ha er) hf
+
+theorem single_files (rec : Rec) (hc : RecCons fs lim rec) (h : RecFiles fs lim rec) (base : Path)
+    (rng : Rng) (p : Path) (stk : List Path) (depth : Nat) (a a' : Acc)
+    (ha : Cons fs lim a.st.cache) (hi : FilesInv fs lim a.res)
+    (e : single fs lim m rec base rng p stk depth a = some a') : FilesInv fs lim a'.res := by
+  unfold single at e
+  simp only at e
+  split at e
+  · simp only [Option.some.injEq] at e; subst e; exact hi
+  split at e
+  · simp only [Option.some.injEq] at e; subst e; exact hi
+  split at e
+  · simp only [Option.some.injEq] at e; subst e; exact hi
+  split at e
+  · rename_i cf hcf
+    split at e
+    · exact descend_files fs lim m rec hc h rng p cf stk depth a a' (ha p cf hcf) ha hi e
+    · simp only [Option.some.injEq] at e; subst e
+      obtain ⟨c1, c2⟩ := ha p cf hcf
+      refine ⟨hi.1.set fs lim c1 c2, ?_⟩
+      intro q
+      simp only [get_set, List.mem_append, List.mem_singleton]
+      by_cases eq : q = p
+      · simp [eq]
+      · simp only [eq, if_false, or_false]; exact hi.2 q
+  · split at e
+    · simp only [Option.some.injEq] at e; subst e; exact hi
+    · rename_i f hf
+      split at e
+      · simp only [Option.some.injEq] at e; subst e; exact hi
+      · rename_i hs
+        have hs' : f.size ≤ lim.maxSize := Nat.le_of_not_lt hs
+        have hcons : Cons fs lim (if m.descend = true then
+            { a with st := { a.st with cache := a.st.cache.set p f } } else a).st.cache := by
+          split
+          · exact ha.set fs lim hf hs'
+          · exact ha
+        have hi' : FilesInv fs lim (if m.descend = true then
+            { a with st := { a.st with cache := a.st.cache.set p f } } else a).res := by
+          split <;> exact hi
+        exact descend_files fs lim m rec hc h rng p f stk depth _ a' ⟨hf, hs'⟩ hcons hi' e
+
+theorem runItems_files (rec : Rec) (hc : RecCons fs lim rec) (h : RecFiles fs lim rec) (base : Path)
+    (stk : List Path) (depth : Nat) (its : List Item) (a a' : Acc)
+    (ha : Cons fs lim a.st.cache) (hi : FilesInv fs lim a.res)
+    (e : runItems fs lim m rec base stk depth its a = some a') : FilesInv fs lim a'.res := by
+  induction its generalizing a with
+  | nil => simp only [runItems, Option.some.injEq] at e; subst e; exact hi
+  | cons it rest ih =>
+    cases it with
+    | err x => simp only [runItems] at e; exact ih (a.addErr x) ha hi e
+    | tgt rng p =>
+      simp only [runItems] at e
+      split at e
+      · exact absurd e (by simp)
+      · rename_i a1 e1
+        exact ih a1 (single_cons fs lim m rec hc base rng p stk depth a a1 ha e1).1
+          (single_files fs lim m rec hc h base rng p stk depth a a1 ha hi e1) e
+
+theorem loadF_files : ∀ fuel, RecFiles fs lim (loadF fs lim m fuel) := by
+  intro fuel
+  induction fuel with
+  | zero => intro p f stk d st sub es st' _ e; simp [loadF] at e
+  | succ fuel ih =>
+    intro p f stk d st sub es st' hc e
+    unfold loadF at e
+    split at e
+    · simp at e
+    · simp only at e
+      split at e
+      · exact absurd e (by simp)
+      · rename_i a ea
+        simp only [Option.some.injEq, Prod.mk.injEq] at e
+        obtain ⟨e1, _, _⟩ := e
+        subst e1
+        refine runItems_files fs lim m _ (loadF_cons fs lim m fuel) ih _ _ _ _ _ a hc ?_ ea
+        exact ⟨fun kv hkv => by simp at hkv, fun q => by simp [Cache.get]⟩
+end
+
 end HL.Lemmas.Loader
